@@ -97,6 +97,13 @@ def rule_r1(ctx, rep):
             if not ok:
                 rep.add("R1", m.qname, node, f"`{norm(child)}` becomes a child of `{norm(owner)}` but `{norm(child)}.parent = {norm(owner)}` "
                         f"does not accompany it on every path: a listed child whose parent link names another node", m.loc(node))
+    # list.remove / list.index / `in` on child lists find a node by identity only while Node has no __eq__ of its own
+    for dn in ("__eq__", "__ne__"):
+        m_ = ci.methods.get(dn)
+        rep.oblige(("R1", "identity", dn), m_ is None)
+        if m_ is not None:
+            rep.add("R1", m_.qname, dn, f"Node defines {dn}: remove_child / child_index / shift / replace_child look a child up with list.index / list.remove / "
+                    f"`in`, which now find the first *equal* node instead of the node they were given", m_.loc())
     rep.floor("child-list insertions in Node", 3)
     # who-may-write: outside class Node nobody touches a child list or re-binds it
     bad = outside_writers(ctx, prog.modules.values(), skip_class=NODE_Q)
@@ -208,6 +215,91 @@ class SwapDomain:
         return st
 
 
+class PosDomain:
+    """must-set of expressions (normalised text) known to equal the shifted child's current position; None = not yet located.
+    `x = L.index(child)` locates it, a swap of positions (a, b) with a in the set moves it to b, `x = y` / `x += c` rewrite the
+    set, a join keeps what holds on both paths."""
+
+    LOST = frozenset({"<lost>"})
+
+    def __init__(self, fi, nm, childp, swap_of):
+        self.fi, self.nm, self.childp, self.swap_of = fi, nm, childp, swap_of
+        self.flow = None
+
+    def meet(self, a, b):
+        if a is None:
+            return b
+        if b is None:
+            return a
+        return (a & b) or self.LOST
+
+    def enter_function(self, fi, st, flow):
+        return None
+
+    def assume_atom(self, test, outcome, st):
+        return st
+
+    def expr(self, e, st, flow):
+        return st
+
+    def _kill(self, st, name):
+        if st is None:
+            return st
+        import re as _re
+        return frozenset(e for e in st if not _re.search(r"\b" + _re.escape(name) + r"\b", e)) or self.LOST
+
+    def bind_for(self, target, it, st, flow, comp):
+        for x in ast.walk(target):
+            if isinstance(x, ast.Name):
+                st = self._kill(st, x.id)
+        return st
+
+    def bind_handler(self, hd, st, flow):
+        return st
+
+    def bind_with(self, item, st, flow):
+        return st
+
+    def stmt(self, s, st, flow):
+        sw = self.swap_of(s)
+        if sw is not None:
+            a, b = norm(sw[0]), norm(sw[1])
+            if st is None:
+                return st
+            if a in st:
+                return frozenset({b})
+            if b in st:
+                return frozenset({a})
+            return self.LOST
+        if isinstance(s, ast.Assign) and len(s.targets) == 1 and isinstance(s.targets[0], ast.Name):
+            x, v = s.targets[0].id, s.value
+            # locating the child
+            if isinstance(v, ast.Call) and isinstance(v.func, ast.Attribute) and v.func.attr == "index" and _is_children(self.nm, v.func.value) \
+                    and v.args and isinstance(v.args[0], ast.Name) and v.args[0].id == self.childp:
+                return frozenset({x})
+            if st is None:
+                return st
+            was = norm(v) in st
+            out = self._kill(st, x)
+            if was:
+                out = (out - self.LOST) | {x}
+            return frozenset(out)
+        if isinstance(s, ast.AugAssign) and isinstance(s.target, ast.Name) and isinstance(s.op, (ast.Add, ast.Sub)) and isinstance(s.value, ast.Constant) \
+                and isinstance(s.value.value, int) and st is not None:
+            x = s.target.id
+            c = s.value.value if isinstance(s.op, ast.Add) else -s.value.value
+            out = set()
+            for e in st:
+                if e == x:
+                    out.add(f"{x} - {c}" if c > 0 else f"{x} + {-c}")
+                elif e == (f"{x} + {c}" if c > 0 else f"{x} - {-c}"):
+                    out.add(x)
+                elif x not in e.replace("_", " ").split() and not __import__("re").search(r"\b" + x + r"\b", e):
+                    out.add(e)
+            return frozenset(out) or self.LOST
+        return st
+
+
 def rule_r2(ctx, rep):
     prog = ctx.prog
     nm = ctx.world.nm
@@ -242,12 +334,9 @@ def rule_r2(ctx, rep):
         if not ok:
             rep.add("R2", esc.origin[0], esc.origin[1], f"{h.short(esc.cls)} may escape shift ({esc.origin[2]}); only the documented ValueError "
                     f"for a bad direction or a non-child may", esc.loc)
-    # (ii) returned index follows every swap
+    # (ii) the returned value is the child's position after every swap, on every path
     rets = [n for n in ast.walk(fi.node) if isinstance(n, ast.Return) and n.value is not None]
-    rvars = {n.value.id for n in rets if isinstance(n.value, ast.Name)}
-    if len(rvars) != 1 or len(rvars) != len({norm(n.value) for n in rets}):
-        raise AnalysisError("Node.shift: cannot single out the returned index variable")
-    rvar = rvars.pop()
+    rvar = None
     swaps = {}
 
     def swap_indices(fn, n):
@@ -281,19 +370,8 @@ def rule_r2(ctx, rep):
                         cand.append((n, am[ha.id], am[hb.id]))
                         rep.touch(H)
     for (n, ia, ib) in cand:
-        if True:
-            if True:
-                if isinstance(ib, ast.Name) and ib.id == rvar:
-                    ia, ib = ib, ia
-                if isinstance(ia, ast.Name) and ia.id == rvar:
-                    if isinstance(ib, ast.Name):
-                        swaps[id(n)] = ("var", ib.id)
-                    elif isinstance(ib, ast.BinOp) and isinstance(ib.left, ast.Name) and ib.left.id == rvar and isinstance(ib.right, ast.Constant) \
-                            and isinstance(ib.op, (ast.Add, ast.Sub)):
-                        swaps[id(n)] = ("delta", ib.right.value if isinstance(ib.op, ast.Add) else -ib.right.value)
-                    else:
-                        swaps[id(n)] = ("lost",)
-                    rep.count("swaps in shift")
+        swaps[id(n)] = (ia, ib)
+        rep.count("swaps in shift")
     # any other way of changing the child list inside shift (remove and re-insert) is not an exchange of two positions
     moved = []
     for n in ast.walk(fi.node):
@@ -312,23 +390,19 @@ def rule_r2(ctx, rep):
         return
     if not swaps:
         raise AnalysisError("anchor vanished: no swap of child positions in Node.shift")
-    dom = SwapDomain(fi, rvar, swaps)
+    childp = fi.params[1] if len(fi.params) > 1 else None
+    dom = PosDomain(fi, nm, childp, lambda st_: swaps.get(id(st_)))
     flow = Flow(fi, dom, ctx.hier, lambda e: resolve_exc_class(ctx.prog, fi.module, e) or "Exception")
     dom.flow = flow
-    flow.run(frozenset())
+    flow.run(None)
     for (r, st) in flow.returns:
-        pend = [p for p in st if p != ("delta", 0)]
-        rep.oblige(("R2ii", norm(r)), not pend)
-        if pend:
-            what = pend[0]
-            desc = f"position {rvar}{what[1]:+d}" if what[0] == "delta" else f"position `{what[1]}`" if what[0] == "var" else "another position"
-            # report at the swap(s)
-            for n in ast.walk(fi.node):
-                if id(n) in swaps and swaps[id(n)] == (what if what[0] != "delta" else swaps[id(n)]):
-                    pass
-            rep.add("R2", fi.qname, f"return {rvar} after a swap", f"on some path the child is swapped to {desc} but `{rvar}` is returned "
-                    f"unchanged: shift reports a stale index", fi.loc(r))
-    rep.floor("swaps in shift", 4)
+        ok = st is not None and st != PosDomain.LOST and r.value is not None and norm(r.value) in st
+        rep.oblige(("R2ii", norm(r)), ok, sample={"return": norm(r), "expressions known to be the child's position": sorted(st) if st else None})
+        if not ok:
+            where = ", ".join(sorted(st)) if st and st != PosDomain.LOST else "unknown"
+            rep.add("R2", fi.qname, r, f"on some path `{norm(r.value) if r.value is not None else 'None'}` is returned while the child sits at position "
+                    f"`{where}`: shift reports a stale index", fi.loc(r))
+    rep.floor("swaps in shift", 1)
     # both failures precede every write
     writes = [n for n in ast.walk(fi.node) if isinstance(n, ast.Assign) and any(isinstance(t, (ast.Subscript, ast.Tuple)) for t in n.targets)]
     writes += [n for (n, _a, _b) in cand if n not in writes]
@@ -430,6 +504,24 @@ def rule_r4(ctx, rep):
     prog = ctx.prog
     w = ctx.world
     nm = w.nm
+    # the level-by-level queries stay on the levels they are about: a path / child query that consults a descendant or ancestry
+    # query is no longer anchored at the node it starts from (the same name chain deeper down would match)
+    LEVEL = ("find_child", "find_all_children", "find_all_nodes_by_path", "find_single_node_by_path", "child_index")
+    DEEP = ("find_descendant", "find_all_descendants", "get_ancestry")
+    for name in LEVEL:
+        fq = prog.funcs.get(f"{NODE_Q}.{name}")
+        if fq is None:
+            continue
+        rep.touch(fq)
+        rep.count("level-wise queries")
+        ftq = w.types(fq)
+        for n in ast.walk(fq.node):
+            if isinstance(n, ast.Call):
+                for tg in w.resolve_call(ftq, n):
+                    if tg.func is not None and tg.func.cls is not None and tg.func.cls.qname == NODE_Q and tg.func.name in DEEP:
+                        rep.oblige(("R4", name, tg.func.name), False)
+                        rep.add("R4", fq.qname, n, f"`{name}` consults `{tg.func.name}`: the query is about the node's own children (level by level), "
+                                f"a match found through a deep query is not anchored at the node the query starts from", fq.loc(n))
     for name in ("find_descendant", "find_all_descendants"):
         fi = prog.func(f"{NODE_Q}.{name}")
         rep.touch(fi)
